@@ -153,7 +153,7 @@ func main() {
 		}
 	}
 	metricsProgs(byPath, out)
-	recordCallers(pkgs, out)
+	recordCallers(prog, pkgs, out)
 	accesses(prog, pkgs, out)
 
 	b, _ := json.MarshalIndent(out, "", " ")
